@@ -1,6 +1,6 @@
 """C06 - resolution does not depend on registration or iteration order."""
 from vlib.pyvc.unit import contract_unit
-from props._common import run_replay, attach_replay
+from props._common import frame_unit, run_replay, attach_replay
 from contracts import runner
 
 LEVEL = 'proof'
@@ -9,7 +9,9 @@ TECHNIQUE = ('pyvc: the real choose_overload is verified against a SET-level '
              'concrete shape of a family of layers x candidates with fully '
              'symbolic candidates (uninterpreted maps / typed_ok / laziness / '
              'specialization relation, not assumed transitive); '
-             '_is_specialization_of by loop invariant for any arity')
+             '_is_specialization_of by loop invariant for any arity; frame '
+             'obligations for runner / specs / yaqltypes (the candidates '
+             'share args, kwargs and mappings: none may be written)')
 LEVEL_TEXT = ('For each shape (1-3 candidates in a layer, 1-2 layers, '
               'function and method calls) the candidates are arbitrary '
               'symbolic objects in a FIXED order; since every predicate on '
@@ -29,16 +31,20 @@ LEVEL_NOTE = ('Bounded in the number of candidates per layer (<=3) and '
 
 
 def units(ctx):
-    us = [contract_unit(c, world_setup=runner.setup)
-          for c in runner.contracts()]
+    us = [frame_unit('C06')]
+    us += [contract_unit(c, world_setup=runner.setup)
+           for c in runner.contracts()]
     us += [contract_unit(c, world_setup=runner.setup_choose)
            for c in runner.choose_contracts(ctx.tier)]
     return us
 
 
 def post(ctx, results):
-    if any(o['status'] == 'failed' and 'choose_overload' in o['name']
+    def hit(o):
+        return 'choose_overload' in o['name'] or o['name'].startswith(
+            'frame:yaql.language.specs.FunctionDefinition.')
+    if any(o['status'] == 'failed' and hit(o)
            for r in results for o in r['obligations']):
         rep = run_replay('c06_perms.py', ctx)
-        attach_replay(results, lambda o: 'choose_overload' in o['name'], rep)
+        attach_replay(results, hit, rep)
     return results
